@@ -84,5 +84,11 @@ Example C14_nonvacuous :
         ERand "proposal/x.py::P.draw"%string NumpyGlobal] = true
   /\ rng_confined pool_sites seed_site init_site
        [ERand seed_site SeedNumpy; ERand seed_site SeedTorch; ESeedCall init_site;
-        ERand "proposal/x.py::P.draw"%string (DefaultRng false)] = false.
+        ERand "proposal/x.py::P.draw"%string (DefaultRng false)] = false
+  /\ rng_confined pool_sites seed_site init_site
+       [ESeedGuard seed_site GIsNone; ERand seed_site SeedFromNumpy; ERand seed_site SeedNumpy;
+        ERand seed_site SeedTorch; ESeedCall init_site] = true
+  /\ rng_confined pool_sites seed_site init_site
+       [ESeedGuard seed_site GTruthiness; ERand seed_site SeedFromNumpy; ERand seed_site SeedNumpy;
+        ERand seed_site SeedTorch; ESeedCall init_site] = false.
 Proof. vm_compute. repeat split. Qed.
